@@ -208,7 +208,5 @@ Example C03_nonvacuous :
     [(10, 12, 2%N); (14, 20, 1%N); (20, 30, 3%N); (30, 50, 11%N)].
 Proof.
   split; [|split]; [|vm_compute; reflexivity|vm_compute; reflexivity].
-  unfold ex_ops. simpl legal_run.
-  repeat split; try (vm_compute; intuition congruence); try exact I;
-  try (intros wr f Hw Hf; vm_compute in Hw; inversion Hw; subst; vm_compute in Hf; inversion Hf; subst; vm_compute; reflexivity).
+  apply legal_runb_sound. vm_compute. reflexivity.
 Qed.
